@@ -44,6 +44,7 @@ type loopInfo struct {
 	// state at header after havoc (for decreases)
 	phiHavoc map[*ssa.Phi]Val
 	variant0 string
+	stHeader *State
 }
 
 type retInfo struct {
@@ -538,6 +539,7 @@ func (a *Act) enterLoop(li *loopInfo, st *State) *State {
 		a.vals[phi] = v
 		li.phiHavoc[phi] = v
 	}
+	li.stHeader = nst.clone()
 	// 5. assume invariants
 	if li.spec != nil {
 		env := a.headerEnv(li, li.phiHavoc, nst)
@@ -641,6 +643,18 @@ func (a *Act) backEdge(from *ssa.BasicBlock, li *loopInfo, cond string) {
 	}
 	st := &State{mem: a.cur.mem, reach: cond}
 	env := a.headerEnv(li, phis, st)
+	// body-end assertions (lemma hints): proved, then available to the invariant steps
+	if a.contract != nil && li.stHeader != nil {
+		for _, as := range a.contract.Asserts {
+			if as.Label != fmt.Sprintf("body-end %d", li.ord) {
+				continue
+			}
+			env.prev = a.headerEnv(li, li.phiHavoc, li.stHeader)
+			t := env.evalBool(as.Expr)
+			a.vc.oblige("assert", fmt.Sprintf("%s:%s", lname, as.Name), cond, t, as.Src, a.posOf(h.Instrs[0].Pos()))
+			a.vc.assume(cond, t)
+		}
+	}
 	for _, inv := range li.spec.Invs {
 		t := env.evalBool(inv.Expr)
 		a.vc.oblige("inv", fmt.Sprintf("%s:%s:step", lname, inv.Name), cond, t, inv.Src, a.posOf(h.Instrs[0].Pos()))
